@@ -586,8 +586,30 @@ def _ext_call(ev, dotted, args, kwargs, fr, node):
     if dotted == 're.findall':
         return T.raw_op('REFINDALL', args[0], args[1])
     if dotted == 'json.dumps':
-        a = _kw(args, kwargs, ['obj', 'indent'], {'indent': T.NONE})
-        return T.raw_op('JSON', a['obj'], a['indent'])
+        pos = ['obj']
+        a = _kw(args[:1], {k_: v_ for k_, v_ in kwargs.items() if k_ in ('obj', 'indent')}, ['obj', 'indent'], {'indent': T.NONE})
+        rest = {k_: v_ for k_, v_ in kwargs.items() if k_ not in ('obj', 'indent')}
+        if len(args) > 1:
+            raise UnmodelledKeyword('positional arguments after obj')
+        # options left at their documented defaults change nothing; sort_keys=True orders the keys of every mapping (the same
+        # data, another text); anything else is not modelled
+        DEFAULTS = {'sort_keys': T.FALSE, 'ensure_ascii': T.TRUE, 'skipkeys': T.FALSE, 'check_circular': T.TRUE, 'allow_nan': T.TRUE,
+                    'cls': T.NONE, 'separators': T.NONE, 'default': T.NONE}
+        extra = []
+        for k_, v_ in sorted(rest.items()):
+            if k_ not in DEFAULTS:
+                raise UnmodelledKeyword(k_)
+            if v_ == DEFAULTS[k_]:
+                continue
+            if k_ == 'sort_keys':
+                extra.append(T.phi(ev.truth(v_, fr), T.const('sort_keys'), T.const('')))
+                continue
+            raise UnmodelledKeyword(k_)
+        out = T.raw_op('JSON', a['obj'], a['indent'])
+        for e_ in extra:
+            out = T.phi(T.eq(e_, T.const('')), out, T.raw_op('JSON_SORTED', a['obj'], a['indent'])) if not T.is_const(e_) else \
+                (out if e_ == T.const('') else T.raw_op('JSON_SORTED', a['obj'], a['indent']))
+        return out
     if dotted == 'io.BytesIO':
         return ev.new_stream(args[0] if args else T.const(b''))
     # ---------------------------------------------------------------- randomness
